@@ -6,9 +6,15 @@ HARNESSES = [dict(name="session", pkg="./pkg/session/", test="TestVerifC17", fil
              dict(name="session_race", pkg="./pkg/session/", test="TestVerifC17", files=_FILES, timeout=900, race=True),
              dict(name="ipoe", pkg="./internal/ipoe/", test="TestVerifC17Callers", timeout=600,
                   files=[("internal/ipoe/zz_verif_c17_test.go", "harness/C17/zz_verif_c17_ipoe_test.go")]),
+             dict(name="e2e", pkg="./internal/ipoe/", test="TestVerifC17E2E", timeout=900,
+                  files=[("internal/ipoe/zz_verif_c17_e2e_test.go", "harness/C17/zz_verif_c17_e2e_test.go")]),
              dict(name="pppoe", pkg="./internal/pppoe/", test="TestVerifC17Callers", timeout=600,
                   files=[("internal/pppoe/zz_verif_c17_test.go", "harness/C17/zz_verif_c17_pppoe_test.go")])]
 MODEL_NEEDS_IMPL = True
+# "repaired": a terminate event resolves to the session on the tuple only if it is the session the event names
+# (fixes/C17_eviction_kills_new_session.patch); "defective": /repo HEAD, any session on the tuple (the publisher's own new one).
+# Only e2e cases depend on the variant.
+VARIANTS = ["repaired", "defective"]
 RULE = ("seq: random sequential histories (1..40 ops) of Claim/Release/IsOwner/Lookup by 2..5 sessions of both protocols "
         "(plus rare foreign protocol strings, empty session ids, Owner.Key different from the claimed key) over 1..4 tuples "
         "drawn from a pool with colliding and non-colliding shard hashes, same MAC on different C-VLANs, VLAN 0/65535; "
@@ -22,6 +28,12 @@ RULE = ("seq: random sequential histories (1..40 ops) of Claim/Release/IsOwner/L
         "real time. ipoe/pppoe: the components' own call sites (claimTuple/releaseTuple, addToIndexes/removeFromIndexes) on "
         "a real Registry with a recording event bus, interleaved with claims/releases by the other protocol; MAC slices of "
         "length 0..7, MixedAccess on/off; published terminate events compared exactly (non-trivial: at least one event). "
+        "e2e: the real ipoe component (handleDiscover, handleSubscriberTerminate) and the real pppoe component (pppoe.New, "
+        "Start, PADI/PADR through its packet channel) on ONE registry and ONE real local event bus on a mixed-access S-VLAN; "
+        "random DISCOVER / PADR sequences (2..6) over 1..2 of 4 tuples; after every op the settled (live ipoe sessions, live "
+        "pppoe sessions, owner protocol) of the tuple is compared with the model (non-trivial: a cross-protocol takeover). "
+        "wgl: hand-written histories fed to the driver's linearizability search, which must reject (8) / accept (4) / flag "
+        "as malformed (2) them on every run. "
         "Distinct: by case text.")
 TRUSTED = ["sync.RWMutex provides mutual exclusion (premise can_acquire of the small-step semantics in Atomic.v)",
            "sync/atomic counter used for invocation/response stamps is sequentially consistent",
@@ -188,6 +200,9 @@ def gen_cases(rng, tier, budget):
     nseq = budget or (1500 if quick else 40000)
     nconc = (budget // 4) if budget else (500 if quick else 10000)
     nrace = (budget // 20) if budget else (80 if quick else 1200)
+    cases += E2E_FIXED
+    for _ in range((budget // 40) if budget else (50 if quick else 500)):
+        cases.append(gen_e2e(rng))
     for who in ("ipoe", "pppoe"):
         other = "pppoe" if who == "ipoe" else "ipoe"
         k = POOL[0]
@@ -212,7 +227,37 @@ def gen_cases(rng, tier, budget):
 
 def route(case):
     h = case.split(" ", 1)[0]
-    return {"rconc": "session_race", "ipoe": "ipoe", "pppoe": "pppoe"}.get(h, "session")
+    return {"rconc": "session_race", "ipoe": "ipoe", "pppoe": "pppoe", "e2e": "e2e"}.get(h, "session")
+
+
+def gen_e2e(rng):
+    """real ipoe + pppoe components on one registry and one bus: DISCOVER / PADI+PADR on 1..2 tuples"""
+    ts = rng.sample([0, 1, 2, 3], rng.choice([1, 1, 2]))
+    return "e2e " + " ".join(rng.choice("DP") + str(rng.choice(ts)) for _ in range(rng.randint(2, 6)))
+
+
+E2E_FIXED = ["e2e D0 P0", "e2e P0 D0", "e2e D0 D0", "e2e P0 P0", "e2e D0 P0 D0 P0", "e2e P1 D1 P1", "e2e D0 P1 P0 D1",
+             "e2e D2 P0 P2", "e2e P3 P3 D3", "e2e D3 P3 P3 D3"]
+
+
+def signature(case, impl, models):
+    """known finding: the takeover leaves NO session and no owner where the repaired model keeps the new claimant"""
+    if not case.startswith("e2e"):
+        return None
+    it, rt, ops = impl.split(), models["repaired"].split(), case.split()[1:]
+    for n, (a, b) in enumerate(zip(it, rt)):
+        if a != b:
+            try:
+                (_, sa, oa), (_, sb, ob) = a.split(":"), b.split(":")
+                ia, pa = map(int, sa[1:].split("p"))
+                ib, pb = map(int, sb[1:].split("p"))
+            except ValueError:
+                return None
+            lost_new = (ia, pa) == ((ib - 1, pb) if ops[n][0] == "D" else (ib, pb - 1))
+            if lost_new and oa == "-" and ob == ("i" if ops[n][0] == "D" else "p"):
+                return "eviction-kills-displacing-session"
+            return None
+    return None
 
 
 def gen_callers(rng, who):
@@ -310,6 +355,11 @@ def overlaps(case, impl):
 
 
 def nontrivial(case, out):
+    if case.startswith("wgl"):
+        return True
+    if case.startswith("e2e"):
+        t = case.split()[1:]
+        return any(a[0] != b[0] and a[1] == b[1] for a, b in zip(t, t[1:]))    # a cross-protocol takeover
     if case.startswith(("ipoe", "pppoe")):
         return "@" in out
     if case.startswith("seq"):
@@ -324,6 +374,15 @@ def classify(case, impl, model):
         return "P", "the call never returned (a method left the shard mutex locked, or deadlock); specification: %s" % model[:200]
     if impl.startswith("panic"):
         return "P", "the implementation panicked: %s" % impl[:200]
+    if case.startswith("wgl"):
+        return "G", "self-test of the linearizability checker failed: expected %s, the driver says %s" % (impl, model)
+    if case.startswith("e2e"):
+        it, mt, ops = impl.split(), model.split(), case.split()[1:]
+        for i, (a, b) in enumerate(zip(it, mt)):
+            if a != b:
+                return "P", ("both components end to end: after op #%d (%s) the tuple shows %s (live ipoe/pppoe sessions : owner), "
+                             "the specification gives %s" % (i, ops[i] if i < len(ops) else "?", a, b))
+        return "P", "end-to-end: %r vs %r" % (impl[:200], model[:200])
     if case.startswith(("ipoe", "pppoe")):
         it, mt = impl.split(), model.split()
         ops = split_ops(case.split()[1:])
@@ -352,6 +411,13 @@ def classify(case, impl, model):
 
 def shrink(case):
     t = case.split()
+    if t[0] == "wgl":
+        return
+    if t[0] == "e2e":
+        for i in range(1, len(t)):
+            if len(t) > 2:
+                yield " ".join(t[:i] + t[i + 1:])
+        return
     if t[0] in ("seq", "ipoe", "pppoe"):
         ops = split_ops(t[1:])
         n = len(ops)
@@ -387,7 +453,8 @@ def shrink(case):
 
 
 def distribution(cases, impl):
-    d = {"seq": 0, "conc": 0, "rconc": 0, "ipoe": 0, "pppoe": 0, "caller_claims": 0, "caller_releases": 0,
+    d = {"seq": 0, "conc": 0, "rconc": 0, "ipoe": 0, "pppoe": 0, "wgl": 0, "wgl_reject": 0, "e2e": 0, "e2e_ops": 0,
+         "e2e_cross_protocol_takeovers": 0, "e2e_both_gone_after_takeover": 0, "caller_claims": 0, "caller_releases": 0,
          "eviction_events": 0, "ops": 0, "claim": 0, "release": 0, "isowner": 0, "lookup": 0,
          "shard_obs": 0, "count_obs": 0, "makekey": 0, "displaced_reported": 0, "claims_nil": 0,
          "conc_ops": 0, "conc_with_overlap": 0, "overlapping_same_tuple_pairs": 0, "max_threads": 0,
@@ -397,6 +464,17 @@ def distribution(cases, impl):
         t = c.split()
         d[t[0]] += 1
         d["hang"] += o.startswith("hang")
+        if t[0] == "wgl":
+            d["wgl_reject"] += t[1] == "reject"
+            continue
+        if t[0] == "e2e":
+            ops, res = t[1:], o.split()
+            d["e2e_ops"] += len(ops)
+            for i in range(1, len(ops)):
+                if ops[i][0] != ops[i - 1][0] and ops[i][1] == ops[i - 1][1] and i < len(res):
+                    d["e2e_cross_protocol_takeovers"] += 1
+                    d["e2e_both_gone_after_takeover"] += res[i].endswith(":i0p0:-")
+            continue
         if t[0] in ("ipoe", "pppoe"):
             for op, r in zip(split_ops(t[1:]), o.split()):
                 d["caller_claims"] += op[0] == "C"
